@@ -304,9 +304,9 @@ SIM_CFGS = {"C12": ["timers"]}
 
 # small configurations of which ALL behaviours are replayed on the real crate
 MODEL_ENUMS = {
-    "C01": ["reuse"], "C02": ["post"], "C03": [], "C04": ["chan"], "C05": ["timers"], "C06": ["reuse"], "C07": ["edge", "life"],
-    "C08": ["drop"], "C09": ["life", "post"], "C10": ["exec", "stream"], "C12": ["timers"], "C13": ["idle"], "C14": ["life"],
-    "C15": ["faults"], "C16": ["edge"],
+    "C01": ["reuse"], "C02": ["post"], "C03": [], "C04": ["chan"], "C05": ["timers"], "C06": ["reuse", "post", "lifeerr"], "C07": ["edge", "life"],
+    "C08": ["drop"], "C09": ["life", "post"], "C10": ["exec", "stream"], "C12": ["timers"], "C13": ["idle"], "C14": ["life", "lifeerr"],
+    "C15": ["faults", "lifeerr"], "C16": ["edge"],
 }
 
 
